@@ -106,6 +106,20 @@ func e2ePlan(tier string) []e2eSpec {
 	// no limits at all
 	add("down", "plain", 0, 0, 1, 0, 0)
 	add("up", "tunnel", 0, 0, 1, 0, 0)
+	// one direction given as `off` (the CLI spelling, parsed by SizeSuffix.Set to -1) or 0, the other a real
+	// limit: each limit constrains its own direction whatever the other's value is
+	parse := func(text string) int64 {
+		var v forwarder.SizeSuffix
+		if err := v.Set(text); err != nil {
+			panic("SizeSuffix.Set(" + text + "): " + err.Error())
+		}
+		return int64(v)
+	}
+	add("down", "plain", parse("1M"), parse("off"), 1, 2, 0)
+	add("up", "plain", parse("off"), parse("1Mi"), 1, 2, 0)
+	add("down", "tunnel", parse("2M"), parse("off"), 3, 2, 0)
+	add("up", "tunnel", parse("off"), parse("2M"), 3, 2, 0)
+	add("down", "plain", parse("off"), parse("off"), 1, 0, 0)
 	// many connections behind a small limit: the backlog of post-paid calls grows far beyond any
 	// plausible per-call patience; very low limits; a transfer in flight while the listener is closed
 	// (graceful shutdown closes listeners first).  Observed for a fixed window, then abandoned.
